@@ -48,7 +48,8 @@ def run(ctx):
     ctx.rule = ("receivers of 2 panels x 1-3 tubes (1D/2D/3D mixes, multipliers, different heights, flux on one side varying along "
                 "the height, convective inner wall, pressure) in three connection patterns (all disconnected = sub-problems in "
                 "parallel; all coupled = edges in parallel; mixed); 740H thermal/deformation(base)/damage data, SiC PIA reliability; "
-                "configurations (nthreads, paging, progress): (1,off,off) reference, (2,off,off), (3,on,on), (1,on,off), (ntubes,off,on). "
+                "configurations (nthreads, paging, progress): (1,off,off) reference, (2,off,off), (3,on,on), (1,on,off), (ntubes,off,on); "
+                "plus the coupled thermohydraulic solver on a small receiver with (1,off), (2,off), (3,on). "
                 "one case = one pipeline run; all non-trivial")
     ctx.trusted += ["process isolation of multiprocess workers and dill pickling (exercised, not modelled)",
                     "translator harness/translators/dispatch.py"]
@@ -72,7 +73,24 @@ def run(ctx):
                           "reliability": True, "kind": kind})
             grp.append(len(cases) - 1)
         groups.append(grp)
+    # the coupled (thermohydraulic) thermal solver has a pool of its own, one map per Picard iteration
+    from harness.props import c07 as c07mod
+    ccases, cgroups = [], []
+    for g in range(ctx.budget(1, 3)):
+        base = c07mod.gen_energy(rng, 0)
+        grp = []
+        for (nth, page) in [(1, False), (2, False), (3, True)]:
+            c = c07mod.to_impl(base)
+            c.update(id=len(ccases), nthreads=nth, page=page)
+            ccases.append(c)
+            grp.append(len(ccases) - 1)
+        cgroups.append(grp)
+    import threading
+    cres = []
+    th = threading.Thread(target=lambda: cres.extend(run_impl_parallel("c07_coupled", ccases, workers=len(ccases), timeout=2400, crash_ok=True)))
+    th.start()
     results = run_impl_parallel("c08_pipeline", cases, workers=len(cases), timeout=2400, crash_ok=True)
+    th.join()
     findings = []
     for c, r in zip(cases, results):
         ctx.case(("c08", c["kind"], c["nthreads"], c["page"], c["progress"], c["id"]), True)
@@ -100,7 +118,22 @@ def run(ctx):
                                  % (what, len(diff), diff[0], (r["detail"].get(diff[0]) or [0, 0, None])[2], (ref["detail"].get(diff[0]) or [0, 0, None])[2])))
             if c["progress"] and not r.get("progress_output"):
                 pass
-    ctx.sample({"receivers": kinds, "runs": len(cases)})
+    for grp in cgroups:
+        ref = cres[grp[0]]
+        for i in grp:
+            ctx.case(("c08-coupled", i, ccases[i]["nthreads"], ccases[i]["page"]), True)
+            ctx.count("coupled:nthreads=%d page=%s" % (ccases[i]["nthreads"], ccases[i]["page"]))
+        if ref.get("setup") != "accept" or "tubes" not in ref:
+            continue        # a receiver the coupled solver does not take (C07's business); nothing to compare
+        for i in grp[1:]:
+            r = cres[i]
+            what = "coupled thermal solve with nthreads=%d page_results=%s" % (ccases[i]["nthreads"], ccases[i]["page"])
+            if r.get("outcome") == "crash" or "tubes" not in r:
+                findings.append((ccases[i], "%s fails where the single-worker in-memory solve succeeds: %s"
+                                 % (what, (r.get("msg") or r.get("error") or r.get("solve_error") or "")[:300])))
+            elif r["tubes"] != ref["tubes"]:
+                findings.append((ccases[i], "%s: wall / fluid temperatures differ from the single-worker in-memory solve" % what))
+    ctx.sample({"receivers": kinds, "runs": len(cases), "coupled_runs": len(ccases)})
     ctx.oblige("validated/configurations-agree (%d pipeline runs)" % len(cases), "validated", not findings, "%d failing checks" % len(findings))
     if findings:
         import os
@@ -119,6 +152,11 @@ def replay(rp):
         print("replay file names a broken obligation, not an input: %s" % rp.get("broken"))
         return 1
     ref = dict(c, nthreads=1, page=False, progress=False)
+    if c.get("what") == "solve":        # a coupled thermal solve
+        r = run_impl("c07_coupled", {"cases": [ref, c]}, timeout=2400)["results"]
+        print("recorded:", rp.get("oracle"))
+        print("observed now: identical to the single-worker solve: %s" % (r[0].get("tubes") == r[1].get("tubes")))
+        return 1
     r = run_impl("c08_pipeline", {"cases": [ref, c]}, timeout=2400)["results"]
     print("recorded:", rp.get("oracle"))
     print("observed now: reference life=%s digest=%s | configuration outcome=%s life=%s digest=%s %s"
